@@ -448,6 +448,17 @@ def run(rep, tier):
         wipe_obligations(rep, h, hashes.HASHES[h], u)
         n += 1
     rep.floor("final functions checked for zeroisation", n, 8)
+    # R-BUILD: every compiler x ISA configuration the property quantifies over builds the public entry points (compile
+    # witnesses: built with the real compilers at -O2, never run).  clang -fsyntax-only accepts an SSE4.1 intrinsic inside an
+    # SSE2 function, gcc -O1 and above refuses to inline it ("target specific option mismatch")
+    wit = hashes.build_witnesses(tier)
+    nw = 0
+    for (lab, ok, err) in driver.compile_witnesses(wit):
+        nw += 1
+        hname = lab.split(":")[0]
+        (rep.proved if ok else rep.violated)("R-BUILD", "", "builds:" + lab, "configuration %s compiles the %s entry points" % (lab, hname),
+                                             "" if ok else err[-260:], file="include/" + hashes.HASHES[hname]["hdr"], unit=lab)
+    rep.floor("build witnesses", nw, 12)
     nl = 0
     for (h, lab, s) in specs:
         nl += lane_rule(rep, us[s.label], "include/" + hashes.HASHES[h]["hdr"])
